@@ -310,6 +310,10 @@ GENERATORS = [
 ] + constants.GENERATORS + arith_sites.GENERATORS
 
 
+# generators whose refusal is reported as a NOTE only (the arithmetic / indexing site inventory: `translator/arith_sites.py`)
+ADVISORY = {"ArithSites"}
+
+
 def main(argv):
     """run.py [--prop Cxx]: every file is regenerated on every run; the exit status is non-zero when a source
     shape was not recognised by a generator that serves the given property (by any generator without --prop)"""
@@ -333,6 +337,12 @@ def main(argv):
         try:
             text = fn(repo)
         except Unrecognised as e:
+            if name in ADVISORY:
+                # an audit artefact, not an obligation: reported as a NOTE, never as a violation (DESIGN.md 7.2: the false-alarm
+                # probe showed 5 of 14 harmless refactors tripping the site inventory)
+                if prop is None or prop in props:
+                    print(f"NOTE translator: {rel} ({', '.join(props)}), advisory: {e}")
+                continue
             concerns = prop is None or prop in props
             print(f"translator: {rel} ({', '.join(props)}): source shape not recognised: {e}"
                   + ("" if concerns else f" [does not concern {prop}]"))
